@@ -1,5 +1,5 @@
 //! A small scripted varlink service used as the target of socket activation / bridge commands.
-//!   h_actsrv --listen <address> [--report <file>]   serve with varlink::listen (activation honoured by the library)
+//!   h_actsrv --listen <address> [--report <file>]   serve with varlink::listen (activation honoured by the library); --listen0: without idle timeout
 //!   h_actsrv --stdio                                 serve stdin/stdout with VarlinkService::handle
 //!   h_actsrv --probe <address>                       print what Listener::new decides, then exit
 use std::io::{BufRead, Write};
@@ -36,13 +36,19 @@ fn main() {
             let svc = varlink::VarlinkService::new("rv", "rp", "1", "ru", vec![Box::new(ResolverIface { table }) as Box<dyn varlink::Interface + Send + Sync>]);
             let _ = varlink::listen(svc, &args[2], &varlink::ListenConfig { idle_timeout: 300, ..Default::default() });
         }
-        "--listen-one" => {
+        "--listen-one" | "--listen-one1" => {
             // --listen-one <address> <a|b> : only one of the two scripted interfaces, long idle timeout
+            // --listen-one1: the same with a single worker thread (a service that serves one connection at a time)
             let mut sp = spec();
             sp.ifaces.retain(|(n, _, _)| n.ends_with(&args[3]));
-            let _ = varlink::listen(sp.build(false), &args[2], &varlink::ListenConfig { idle_timeout: 300, ..Default::default() });
+            let mut cfg = varlink::ListenConfig { idle_timeout: 300, ..Default::default() };
+            if mode == "--listen-one1" {
+                cfg.initial_worker_threads = 1;
+                cfg.max_worker_threads = 1;
+            }
+            let _ = varlink::listen(sp.build(false), &args[2], &cfg);
         }
-        "--listen" => {
+        "--listen" | "--listen0" => {
             if let Some(i) = args.iter().position(|a| a == "--report") {
                 let mut f = std::fs::File::create(&args[i + 1]).unwrap();
                 let fd3 = unsafe { libc::fcntl(3, libc::F_GETFD) } != -1;
@@ -67,7 +73,8 @@ fn main() {
             let r = varlink::listen(
                 spec().build(false),
                 &args[2],
-                &varlink::ListenConfig { idle_timeout: 1, ..Default::default() },
+                // --listen0: the default configuration (no idle timeout), as a long-running activated service has it
+                &varlink::ListenConfig { idle_timeout: if mode == "--listen0" { 0 } else { 1 }, ..Default::default() },
             );
             if let Err(e) = r {
                 if *e.kind() != varlink::ErrorKind::Timeout {
